@@ -1391,7 +1391,10 @@ class Py2Cpp(ITranspiler):
 		return self.proc_binary_operation(node, elements)
 
 	def on_comparison(self, node: defs.Comparison, elements: list[str]) -> str:
-		return self.proc_binary_operation(node, elements)
+		# XXX C++のビット演算(| ^ &)は比較演算子より優先度が低いため、被演算子がビット演算の場合は括弧で保護
+		bitwise_types = (defs.OrBitwise, defs.XorBitwise, defs.AndBitwise)
+		protected = [f'({element})' if isinstance(in_node, bitwise_types) else element for in_node, element in zip(node.elements, elements)]
+		return self.proc_binary_operation(node, protected)
 
 	def on_or_bitwise(self, node: defs.OrBitwise, elements: list[str]) -> str:
 		return self.proc_binary_operation(node, elements)
